@@ -280,6 +280,8 @@ BaseTrees ==
     EthEl("e", 1, 1, 4095, <<134, 221>>, Ip6El("p", 6, 9, 4660, <<"hbh", "rt", "fr">>, 17, 4, 7, 2, 5, TRUE), 4).tree,
     EthEl("e", 0, 0, 0, <<134, 221>>, Ip6El("p", 6, 0, 1, <<"rt", "hbh">>, 58, 5, 4, 3, 0, FALSE), 5).tree,
     EthEl("e", 0, 0, 0, <<136, 204>>, BufEl("p", V(6, 20)), 6).tree,
+    EthEl("e", 2, 0, 100, <<129, 0>>, BufEl("p", <<0, 200, 8, 0>> \o V(7, 24)), 7).tree,        \* stacked tags (Q-in-Q): 0x8100 again after the first tag
+    EthEl("e", 1, 0, 5, <<129, 0>>, BufEl("p", <<0, 6, 129, 0, 0, 7, 8, 6>> \o V(8, 28)), 8).tree,  \* three tags
     [T |-> "VLAN", TPID |-> <<129, 0>>, PCP |-> <<5>>, DEI |-> <<1>>, VID |-> <<1, 1>>],
     ArpEl("p", 7, 1).tree,
     Ip4El("p", 4, 5, 0, 0, 0, 0, 17, 8, 12).tree, Ip4El("p", 4, 15, 63, 3, 7, 8191, 1, 9, 4).tree, Ip4El("p", 4, 6, 0, 0, 0, 0, 6, 10, 20).tree,
